@@ -3,8 +3,10 @@ import json, sys
 ALL = ['C%02d' % i for i in range(1, 21)]
 import glob, os
 CLAIMED = {}
+READY = open('/verif/py/props/READY').read().split()     # properties whose check has been validated on the unchanged tree
 for f in sorted(glob.glob('/verif/py/props/c*.claim.json')):
-    CLAIMED[os.path.basename(f)[:3].upper()] = json.load(open(f))
+    if os.path.basename(f)[:3].upper() in READY:
+        CLAIMED[os.path.basename(f)[:3].upper()] = json.load(open(f))
 NA_REASON = 'not yet built: the Coq model and theorems for this property are not committed yet (DESIGN.md §10 build order); no check is claimed rather than claiming one that decides nothing'
 def main():
     checks = []
